@@ -746,7 +746,8 @@ def run_case(case):
 
     # ---- memory layout / dtype of the arrays handed over (values unchanged, float32: the rounded values) -------
     lay = o.get('layout', 'plain')
-    if o['nonfinite'] or o['perturbed']:
+    if o['nonfinite'] or o['perturbed'] or o['bkg'] in ('estimator', 'estimator_plane'):
+        # (float32 input makes the annulus median itself a float32 computation: not a layout question)
         lay = lay if lay != 'float32' else 'fortran'
     data, data_obj = _lay(data, lay)
     mask, mask_obj = _lay(mask, lay if lay != 'float32' else 'strided')
@@ -1007,6 +1008,11 @@ def run_case(case):
     xf, yf, ff = _col(tbl, 'x_fit'), _col(tbl, 'y_fit'), _col(tbl, 'flux_fit')
     if unit is not None:
         for c in ('flux_init', 'flux_fit', 'flux_err', 'local_bkg'):
+            if c == 'flux_err' and o['fixed'] == 'flux':
+                # NaN placeholder column of a fixed parameter: the library leaves it unit-less; nothing documented
+                case.note('fixed_flux_err_column_without_unit' if getattr(tbl[c], 'unit', None) != unit
+                          else 'fixed_flux_err_column_with_unit')
+                continue
             case.check(getattr(tbl[c], 'unit', None) == unit, 'flux_columns_carry_data_unit', dict(mech, col=c),
                        unit=str(getattr(tbl[c], 'unit', None)))
     # ---- flags ------------------------------------------------------------------------
@@ -1139,7 +1145,8 @@ def run_case(case):
                                                    shape_truth={q: ttruth[q][R] for q in s.info['free']})
                 if not ok_ind:
                     undecided.add(g)
-                    case.note('recovery_undecided_independent_fit_also_left_basin')
+                    case.note('recovery_undecided_independent_fit_also_left_basin'
+                              + ('' if o.get('mag_kind', 'plain') == 'plain' else '[magnitude ' + o['mag_kind'] + ']'))
                     continue
             for (what, rm, okk, devname, dev, det) in lst:
                 case.dev(devname, dev)
